@@ -19,7 +19,7 @@ func init() {
 		Assumptions: []string{"thresholds are within 0..n+1 as the property's quantifier says (a threshold >= 2^63 would wrap in the app's int conversion; outside the quantifier)"},
 		Real:        []string{"app.ShutterApp", "shmsg", "shutterevents"},
 		Stub:        []string{"Tendermint consensus, mempool, block store (simtm)"},
-		QuickRuns:   6000, ThoroughRuns: 600000, QuickMinimize: 300, ThoroughMinimize: 2000,
+		QuickRuns:   20000, ThoroughRuns: 600000, QuickMinimize: 300, ThoroughMinimize: 2000,
 	})
 }
 
